@@ -132,92 +132,15 @@ def expected_capture(group, fields):
     return [v]
 
 
-def run(repo, res, tier):
-    res.rule("SID-GRAMMAR", "the template __str__ prints conforms to the grammar and every group captures its own field, in every shape case", 20)
-    res.rule("SID-PARSE", "from_benchmark_id on the printed template rebuilds every constructor argument, in every shape case", 11)
-    res.rule("SOL-ID", "Solution.benchmark_id -> _parse_solution recovers models, types, cost functions, scenario id and version", 5)
-    mod = repo.mod(SC)
-    sid = repo.cls(SC, "ScenarioID")
-    pat_node = sid.class_assigns.get("benchmark_id_pattern")
-    ev0 = Ev(repo)
-    try:
-        pv = ev0.ev(pat_node, {"__mod__": mod}, mod) if pat_node is not None else None
-    except AnalysisError:
-        pv = None
-    if pv is None or not hasattr(pv, "pattern"):
-        raise AnalysisError("ScenarioID.benchmark_id_pattern is not re.compile(<string constant>)")
-    gram = Grammar(pv.pattern)
-    if set(gram.names.values()) != set(GROUP_TO_FIELD):
-        raise AnalysisError("regex groups changed: %s" % sorted(gram.names.values()))
-    letters = behaviour_letters(repo, sid)
-    mapcs = map_name_alphabet(repo, sid)
-    pr = sid.methods.get("__str__")
-    fb = sid.methods.get("from_benchmark_id")
-    init = sid.methods.get("__init__")
-    if pr is None or fb is None or init is None:
-        raise AnalysisError("ScenarioID.__str__ / from_benchmark_id / __init__ missing")
-    params = [a.arg for a in init.args.args][1:]
-    if not set(GROUP_TO_FIELD.values()) | {"scenario_version"} <= set(params):
-        raise AnalysisError("ScenarioID.__init__ parameters changed: %s" % params)
-    printed = {}
-    for label, f in sid_cases(letters, mapcs):
-        q = "ScenarioID.__str__"
-        ev = Ev(repo)
-        try:
-            t = ev.to_str(Obj(sid, dict(f)))
-        except _Raise as r:
-            res.check("SID-GRAMMAR", "%s: printing" % label, False, mod, pr, "ScenarioID.__str__ [%s] raises %s" % (label, r.what), "printing a valid id raises", qualname=q)
-            continue
-        if not isinstance(t, Str):
-            res.check("SID-GRAMMAR", "%s: printing" % label, False, mod, pr, "ScenarioID.__str__ [%s] does not yield text: %s" % (label, show(t)), "the printed id is not a string made of the id's fields", qualname=q)
-            continue
-        caps = gram.fullmatch(t)
-        res.check("SID-GRAMMAR", "%s: %s conforms to the grammar" % (label, t.text()), caps is not None, mod, pr, "ScenarioID.__str__ [%s] prints %s" % (label, t.text()), "the printed id does not conform to the CommonRoad id grammar (separator, order, prefix, alphabet or a missing / extra component)", qualname=q)
-        if caps is None:
-            continue
-        bad = []
-        for g in GROUP_TO_FIELD:
-            want = expected_capture(g, f)
-            got = caps[g]
-            if want is None:
-                if got is not NONE:
-                    bad.append("%s captures %s but the id has no such part" % (g, show(got)))
-            elif got is NONE:
-                bad.append("%s is absent but the id has %s" % (g, GROUP_TO_FIELD[g]))
-            else:
-                atoms = [p[1] for p in got.pieces if p[0] == "sym"]
-                if [a.name for a in atoms] != [a.name for a in want]:
-                    bad.append("%s captures %s" % (g, show(got)))
-        res.check("SID-GRAMMAR", "%s: every group captures its own field" % label, not bad, mod, pr, "ScenarioID.__str__ [%s] %s" % (label, "; ".join(bad)), "a component is printed where the grammar expects another one", qualname=q)
-        if not bad:
-            printed[label] = (f, t)
-
-    # ---- parser
-    q = "ScenarioID.from_benchmark_id"
-    match_ops = set()
-    for label, (f, t) in printed.items():
-        ev = Ev(repo)
-        try:
-            target = ev.getattr(ClassRef(sid), "from_benchmark_id", fb, mod)
-            r = ev.call_fn(target, [t, f["scenario_version"]], {}, fb)
-        except _Raise as x:
-            res.check("SID-PARSE", "%s: parsing %s" % (label, t.text()), False, mod, fb, "from_benchmark_id [%s] raises %s" % (label, x.what), "a valid printed id is rejected by the parser", qualname=q)
-            continue
-        match_ops |= {w[0] for w in ev.trace if w[0].startswith("pattern-")}
-        ok = isinstance(r, Ctor) and r.name == "ScenarioID"
-        bad = []
-        if ok:
-            for p in params:
-                want = f.get(p)
-                got = r.args.get(p)
-                if not same(want, got):
-                    bad.append("%s = %s (printed from %s)" % (p, show(got), show(want)))
-        else:
-            bad.append("result %s" % show(r))
-        res.check("SID-PARSE", "%s: parsing %s rebuilds all fields" % (label, t.text()), not bad, mod, fb, "from_benchmark_id [%s] %s" % (label, "; ".join(bad)), "parsing the printed id back does not give an equal id (a component is dropped, converted wrongly, or passed to the wrong constructor parameter)", qualname=q)
-    if printed:
-        res.check("SID-PARSE", "whole string must match (fullmatch)", match_ops == {"pattern-fullmatch"}, mod, fb, "from_benchmark_id matching with %s" % sorted(match_ops), "ids with trailing garbage are accepted", qualname=q)
-
+def solution_roundtrip_rules(repo, res, RULE="SOL-ID", gram=None):
+    """write -> read of a solution's identifying data, decided by abstract evaluation (shared with C14, whose round
+    trip of solution files contains this one): Solution.benchmark_id and the writer's node order on one side,
+    CommonRoadSolutionReader._parse_solution on the other, over all vehicle model x type pairs, all cost functions and
+    cooperative solutions with planning problem ids that are not in insertion order"""
+    if gram is None:
+        sid_ = repo.cls(SC, "ScenarioID")
+        pv_ = Ev(repo).ev(sid_.class_assigns.get("benchmark_id_pattern"), {"__mod__": sid_.mod}, sid_.mod)
+        gram = Grammar(pv_.pattern)
     # ---- solution ids
     smod = repo.mod(SO)
     sol = repo.cls(SO, "Solution")
@@ -328,8 +251,98 @@ def run(repo, res, tier):
                 bad = ["raises %s" % x.what]
             if bad:
                 bad_all.append("%s: %s" % ("+".join("%s/%s/%s" % (m.name, t.name, c.name) for m, t, c in triples), "; ".join(bad[:3])))
-        res.check("SOL-ID", "%s (%d evaluations, e.g. %s)" % (title, len(cases), example), not bad_all, smod, bidfn, "solution benchmark id, %s: %s" % (title, " | ".join(bad_all[:3])), "reading the printed solution benchmark id back does not give the same vehicle models, vehicle types, cost functions, scenario id or version", qualname="Solution.benchmark_id")
+        res.check(RULE, "%s (%d evaluations, e.g. %s)" % (title, len(cases), example), not bad_all, smod, bidfn, "solution benchmark id, %s: %s" % (title, " | ".join(bad_all[:3])), "reading the printed solution benchmark id back does not give the same vehicle models, vehicle types, cost functions, scenario id or version", qualname="Solution.benchmark_id")
     # the scenario id alphabet must not contain the meta characters of the solution id: a consequence of the
     # evaluation above (split / replace through an atom yields a fragment), stated separately for diagnosis
-    res.check("SOL-ID", "scenario id alphabet is disjoint from ':,[] '", not (gram.alphabet() & set(":,[] ")), smod, bidfn, "scenario id alphabet vs solution id meta characters", "a scenario id may contain a character the solution id uses as separator", qualname="Solution.benchmark_id")
+    res.check(RULE, "scenario id alphabet is disjoint from ':,[] '", not (gram.alphabet() & set(":,[] ")), smod, bidfn, "scenario id alphabet vs solution id meta characters", "a scenario id may contain a character the solution id uses as separator", qualname="Solution.benchmark_id")
+    return n_eval
+
+
+def run(repo, res, tier):
+    res.rule("SID-GRAMMAR", "the template __str__ prints conforms to the grammar and every group captures its own field, in every shape case", 20)
+    res.rule("SID-PARSE", "from_benchmark_id on the printed template rebuilds every constructor argument, in every shape case", 11)
+    res.rule("SOL-ID", "Solution.benchmark_id -> _parse_solution recovers models, types, cost functions, scenario id and version", 5)
+    mod = repo.mod(SC)
+    sid = repo.cls(SC, "ScenarioID")
+    pat_node = sid.class_assigns.get("benchmark_id_pattern")
+    ev0 = Ev(repo)
+    try:
+        pv = ev0.ev(pat_node, {"__mod__": mod}, mod) if pat_node is not None else None
+    except AnalysisError:
+        pv = None
+    if pv is None or not hasattr(pv, "pattern"):
+        raise AnalysisError("ScenarioID.benchmark_id_pattern is not re.compile(<string constant>)")
+    gram = Grammar(pv.pattern)
+    if set(gram.names.values()) != set(GROUP_TO_FIELD):
+        raise AnalysisError("regex groups changed: %s" % sorted(gram.names.values()))
+    letters = behaviour_letters(repo, sid)
+    mapcs = map_name_alphabet(repo, sid)
+    pr = sid.methods.get("__str__")
+    fb = sid.methods.get("from_benchmark_id")
+    init = sid.methods.get("__init__")
+    if pr is None or fb is None or init is None:
+        raise AnalysisError("ScenarioID.__str__ / from_benchmark_id / __init__ missing")
+    params = [a.arg for a in init.args.args][1:]
+    if not set(GROUP_TO_FIELD.values()) | {"scenario_version"} <= set(params):
+        raise AnalysisError("ScenarioID.__init__ parameters changed: %s" % params)
+    printed = {}
+    for label, f in sid_cases(letters, mapcs):
+        q = "ScenarioID.__str__"
+        ev = Ev(repo)
+        try:
+            t = ev.to_str(Obj(sid, dict(f)))
+        except _Raise as r:
+            res.check("SID-GRAMMAR", "%s: printing" % label, False, mod, pr, "ScenarioID.__str__ [%s] raises %s" % (label, r.what), "printing a valid id raises", qualname=q)
+            continue
+        if not isinstance(t, Str):
+            res.check("SID-GRAMMAR", "%s: printing" % label, False, mod, pr, "ScenarioID.__str__ [%s] does not yield text: %s" % (label, show(t)), "the printed id is not a string made of the id's fields", qualname=q)
+            continue
+        caps = gram.fullmatch(t)
+        res.check("SID-GRAMMAR", "%s: %s conforms to the grammar" % (label, t.text()), caps is not None, mod, pr, "ScenarioID.__str__ [%s] prints %s" % (label, t.text()), "the printed id does not conform to the CommonRoad id grammar (separator, order, prefix, alphabet or a missing / extra component)", qualname=q)
+        if caps is None:
+            continue
+        bad = []
+        for g in GROUP_TO_FIELD:
+            want = expected_capture(g, f)
+            got = caps[g]
+            if want is None:
+                if got is not NONE:
+                    bad.append("%s captures %s but the id has no such part" % (g, show(got)))
+            elif got is NONE:
+                bad.append("%s is absent but the id has %s" % (g, GROUP_TO_FIELD[g]))
+            else:
+                atoms = [p[1] for p in got.pieces if p[0] == "sym"]
+                if [a.name for a in atoms] != [a.name for a in want]:
+                    bad.append("%s captures %s" % (g, show(got)))
+        res.check("SID-GRAMMAR", "%s: every group captures its own field" % label, not bad, mod, pr, "ScenarioID.__str__ [%s] %s" % (label, "; ".join(bad)), "a component is printed where the grammar expects another one", qualname=q)
+        if not bad:
+            printed[label] = (f, t)
+
+    # ---- parser
+    q = "ScenarioID.from_benchmark_id"
+    match_ops = set()
+    for label, (f, t) in printed.items():
+        ev = Ev(repo)
+        try:
+            target = ev.getattr(ClassRef(sid), "from_benchmark_id", fb, mod)
+            r = ev.call_fn(target, [t, f["scenario_version"]], {}, fb)
+        except _Raise as x:
+            res.check("SID-PARSE", "%s: parsing %s" % (label, t.text()), False, mod, fb, "from_benchmark_id [%s] raises %s" % (label, x.what), "a valid printed id is rejected by the parser", qualname=q)
+            continue
+        match_ops |= {w[0] for w in ev.trace if w[0].startswith("pattern-")}
+        ok = isinstance(r, Ctor) and r.name == "ScenarioID"
+        bad = []
+        if ok:
+            for p in params:
+                want = f.get(p)
+                got = r.args.get(p)
+                if not same(want, got):
+                    bad.append("%s = %s (printed from %s)" % (p, show(got), show(want)))
+        else:
+            bad.append("result %s" % show(r))
+        res.check("SID-PARSE", "%s: parsing %s rebuilds all fields" % (label, t.text()), not bad, mod, fb, "from_benchmark_id [%s] %s" % (label, "; ".join(bad)), "parsing the printed id back does not give an equal id (a component is dropped, converted wrongly, or passed to the wrong constructor parameter)", qualname=q)
+    if printed:
+        res.check("SID-PARSE", "whole string must match (fullmatch)", match_ops == {"pattern-fullmatch"}, mod, fb, "from_benchmark_id matching with %s" % sorted(match_ops), "ids with trailing garbage are accepted", qualname=q)
+
+    n_eval = solution_roundtrip_rules(repo, res, "SOL-ID", gram)
     return {"shape_cases": [c[0] for c in sid_cases(letters, mapcs)], "behaviour_letters": sorted(letters), "map_name_alphabet": "".join(sorted(mapcs)), "solution_roundtrips": n_eval, "assumed": "country ids are three upper-case letters (ISO-3166 alpha-3 / ZAM), numbers are positive integers (property statement)"}
